@@ -129,7 +129,7 @@ EXPR = "fun c => let '(D, II, K, ny) := c in run_kdt D II K ny"
 def run(ctx):
     ctx.rule = ('(a) random K-NN query tables (1-9 rows each side, K 1-5, ties, missing neighbours) injected through a wrapped '
                 'cKDTree.query; (b) real feature arrays (1-4 features, 1-%d rows, K 1-15, bounds inf/1.0/0.3, with exact ties '
-                'and sorted variants; integer-typed candidates with real-valued queries, the reverse, and float32) whose real query table is rank-coded for the model; non-trivial = at least two rows compete '
+                'and sorted variants; integer-typed candidates with real-valued queries, the reverse, and float32; candidate buffers refilled in place between consecutive calls) whose real query table is rank-coded for the model; non-trivial = at least two rows compete '
                 'for one candidate in some column' % (40 if ctx.quick() else 200))
     ctx.proof(extra=['props/Prop_Tie_Kdt.v'])  # translation tie: program regenerated from the source + refinement theorems
     from emd import cycles
@@ -172,6 +172,28 @@ def run(ctx):
             ctx.problem('impl-violation', site, detail, input=inp, tags=dict(K1=c['K'] == 1))
         if out != mo[idx] and bad is None and not fails:
             bad = (inp, out, mo[idx])
+    # ---- a caller's candidate buffer refilled IN PLACE between consecutive calls (same object, same shape, new values): every call is
+    # about the values the buffer holds now
+    rs2 = np.random.RandomState(ctx.seed + 171)
+    for ny, nf in ((40, 2), (25, 1), (120, 3)):
+        ybuf = np.zeros((ny, nf))
+        for rep in range(4 if ctx.quick() else 40):
+            ybuf[...] = rs2.randn(ny, nf) * (1 + rep)
+            x = rs2.randn(int(rs2.randint(5, 30)), nf) * (1 + rep)
+            K, bound = int(rs2.choice([1, 3, 15])), float(rs2.choice([np.inf, 1.0]))
+            Dz, I, Df = real_table(x, ybuf.copy(), K, bound)
+            ctx.count(('refilled', ny, nf, rep), rep > 0, 'refilled-buffer')
+            ctx.exact_cmp += 1
+            try:
+                xi, yi = cycles.kdt_match(x, ybuf, K=K, distance_upper_bound=bound)
+                fails = oracle_pairs(xi, yi, x.shape[0], ny, I, Df, bound)
+            except Exception as e:
+                fails = [('kdt_match', 'raised %s: %s' % (type(e).__name__, e))]
+            for site, detail in fails[:1]:
+                ctx.problem('impl-violation', site, '[candidate array refilled in place, call %d on the same object] %s' % (rep + 1, detail),
+                            input=dict(refilled=True, seed=ctx.seed, ny=ny, nf=nf, rep=rep), tags=dict(K1=K == 1))
+            if fails:
+                break
     if bad is not None:
         ctx.problem('correspondence-break', 'run_kdt', 'model and implementation differ', input=bad[0], observed=bad[1],
                     expected=bad[2], theorem='KdtMatch.run_kdt vs emd.cycles.kdt_match')
@@ -180,6 +202,23 @@ def run(ctx):
 def replay(rec):
     from emd import cycles
     i = rec['input']
+    if i.get('refilled'):
+        rs2 = np.random.RandomState(i['seed'] + 171)
+        for ny, nf in ((40, 2), (25, 1), (120, 3)):
+            ybuf = np.zeros((ny, nf))
+            for rep in range(40):
+                ybuf[...] = rs2.randn(ny, nf) * (1 + rep)
+                x = rs2.randn(int(rs2.randint(5, 30)), nf) * (1 + rep)
+                K, bound = int(rs2.choice([1, 3, 15])), float(rs2.choice([np.inf, 1.0]))
+                Dz, I, Df = real_table(x, ybuf.copy(), K, bound)
+                xi, yi = cycles.kdt_match(x, ybuf, K=K, distance_upper_bound=bound)
+                f = oracle_pairs(xi, yi, x.shape[0], ny, I, Df, bound)
+                if f:
+                    print(ny, nf, rep, f[:1])
+                    return True
+                if (ny, nf, rep) == (i['ny'], i['nf'], i['rep']):
+                    return False
+        return False
     try:
         if 'D' in i:
             out = impl_table(i['D'], i['inds'], i['K'], i['ny'])
